@@ -33,10 +33,14 @@
 //!                                                   (0: the sender lives in the module struct, 1: in the task itself)
 //!               task <T> ssend <ns> <C> <id> <B|->  task sleeps, then sends over <C>
 //!               keep                                (msg hook) store the received message in the module struct
+//!               parent drop|keep                    current().parent(): the handle is dropped at once / kept until the callback ends
+//!               child <M> drop|keep                 current().child(<name of M>), likewise
 //!               shutdown | restart <ns>             current().shutdown() / shutdow_and_restart_in (once per module)
 //!               panic                               the handler panics (module error)
 //!               pepanic                             (msg hook) a processing element of <M> panics in `incoming` on that
 //!                                                   message id: outside the module harness, the panic unwinds out of run()
+//!   A body tag `z` is a zero-sized flow-control credit with a counting destructor (all credits of a case are counted
+//!   together: `obj zbody credits#0 c=<created> s= d= l=`).
 //!   init <M> <id> <time|max> <B|->                  message injected with handle_message_on before the run
 //!   A time / delay `max` is SimTime::MAX ("never fires" watchdog; `sched <id> max <B>` = schedule_at(.., SimTime::MAX)).
 //!   Such an event must never become the NEXT event of a started run (peeking at it scans the calendar for ever), so a
@@ -44,6 +48,7 @@
 //!   and never through finish()'s drain (end=finish is executed as end=nofinish).
 //! Transcript: the same lines, then
 //!   stop now=<ns> fes=<n> down=<M,…|-> kept=<n> queued=<n> held=<n>   state after the event loop, before finish()
+//!   asked <M,…|->                                               modules whose current().parent() succeeded at least once
 //!   q <C> <dir> <n,n,…>                                         queued packets per link of chain <C> (fwd / bwd)
 //!   fin res=ok|err|panic rem=<n> hm=<n> ex=<n> ub=<n> rs=<n> aw=<n>   finish(): remaining events by kind
 //!   obj <kind> <tag#k> c=<created> s=<dropped at stop> d=<dropped right after the drop> l=<dropped after sim2 and sim3>
@@ -76,6 +81,8 @@ struct Registry {
     inst: HashMap<String, u32>,
     kept: u32,
     held: u32,
+    zidx: Option<usize>,
+    asked: Vec<String>,
     log2: Vec<String>,
 }
 
@@ -119,9 +126,47 @@ impl MessageBody for Body {
     }
 }
 
+/// a zero-sized body (flow-control credit) with a counting destructor
+#[derive(Debug)]
+struct Credit;
+impl Credit {
+    fn new() -> Credit {
+        reg(|r| {
+            let i = match r.zidx {
+                Some(i) => i,
+                None => {
+                    r.objs.push(Obj { kind: "zbody", tag: "credits#0".into(), created: 0, dropped: 0, at_stop: 0, after_drop: 0 });
+                    r.zidx = Some(r.objs.len() - 1);
+                    r.objs.len() - 1
+                }
+            };
+            r.objs[i].created += 1;
+        });
+        Credit
+    }
+}
+impl Drop for Credit {
+    fn drop(&mut self) {
+        reg(|r| {
+            if let Some(i) = r.zidx {
+                r.objs[i].dropped += 1;
+            }
+        });
+    }
+}
+impl MessageBody for Credit {
+    fn byte_len(&self) -> usize {
+        100
+    }
+}
+
 fn mk_msg(id: u16, body: &str) -> Message {
     let m = Message::default().id(id);
     if body == "-" {
+        m
+    } else if body == "z" {
+        let mut m = m;
+        m.set_content_non_clonable(Credit::new());
         m
     } else {
         let mut m = m;
@@ -144,6 +189,8 @@ enum Act {
     Restart(u64),
     Panic,
     PePanic,
+    Parent(bool),
+    Child(String, bool),
 }
 
 #[derive(Clone, Debug, Default)]
@@ -193,6 +240,8 @@ fn parse_act(t: &[&str], chains: &[ChainSpec], own: &str) -> Option<Act> {
             Some(Act::TaskSend { tag: tag.to_string(), ns: ns.parse().ok()?, chain: c.to_string(), id: id.parse().ok()?, body: body.to_string() })
         }
         ["keep"] => Some(Act::Keep),
+        ["parent", k] => Some(Act::Parent(*k == "keep")),
+        ["child", c, k] => Some(Act::Child(c.to_string(), *k == "keep")),
         ["shutdown"] => Some(Act::Shutdown),
         ["restart", ns] => Some(Act::Restart(ns.parse().ok()?)),
         ["panic"] => Some(Act::Panic),
@@ -360,8 +409,30 @@ fn do_send(chain: &str, id: u16, delay: u64, body: &str) {
 
 impl Node {
     fn run(&mut self, acts: Option<&Vec<Act>>, mut incoming: Option<Message>) {
+        // handles of other modules that live until the callback ends
+        let mut handles: Vec<ModuleRef> = Vec::new();
         for a in acts.into_iter().flatten() {
             match a {
+                Act::Parent(keep) => {
+                    if let Ok(p) = current().parent() {
+                        let me = self.spec.tag.clone();
+                        reg(|r| {
+                            if !r.asked.contains(&me) {
+                                r.asked.push(me)
+                            }
+                        });
+                        if *keep {
+                            handles.push(p);
+                        }
+                    }
+                }
+                Act::Child(name, keep) => {
+                    if let Ok(c) = current().child(name) {
+                        if *keep {
+                            handles.push(c);
+                        }
+                    }
+                }
                 Act::Send { chain, id, delay, body } => do_send(chain, *id, *delay, body),
                 Act::Sched { id, delay, body } => {
                     if *delay == u64::MAX {
@@ -681,6 +752,8 @@ fn simulate(sc: &Script, stop: &str, drop_order: &str, end: &str, out: &mut Vec<
         reg(|r| r.held)
     ));
     out.extend(qlines);
+    let asked = reg(|r| r.asked.clone());
+    out.push(format!("asked {}", if asked.is_empty() { "-".to_string() } else { asked.join(",") }));
     if end == "nofinish" {
         out.push("fin res=nofinish rem=0 hm=0 ex=0 ub=0 rs=0 aw=0".into());
         drop(rt);
@@ -827,7 +900,7 @@ pub fn exec(input: &str) -> String {
         writeln!(out, "{header}").unwrap();
         let body: Vec<String> = body
             .into_iter()
-            .filter(|l| !["stop ", "q ", "fin ", "obj ", "sim2 ", "sim3 "].iter().any(|p| l.starts_with(p)))
+            .filter(|l| !["stop ", "q ", "asked ", "fin ", "obj ", "sim2 ", "sim3 "].iter().any(|p| l.starts_with(p)))
             .collect();
         for l in &body {
             writeln!(out, "{l}").unwrap();
@@ -968,6 +1041,8 @@ pub fn gen(seed: u64, count: usize, thorough: bool) -> String {
             let body = |r: &mut Rng, bcount: &mut u32| {
                 if r.chance(1, 6) {
                     "-".to_string()
+                } else if r.chance(1, 6) {
+                    "z".to_string()
                 } else {
                     *bcount += 1;
                     format!("b{}", *bcount)
@@ -1002,6 +1077,13 @@ pub fn gen(seed: u64, count: usize, thorough: bool) -> String {
                     format!("task t{tcount} ssend {ns} {} {id} {b}", c.0)
                 }
                 10 if hook == "msg" => "keep".to_string(),
+                10 | 13 if r.chance(1, 2) => {
+                    if r.chance(1, 2) {
+                        format!("parent {}", r.pick(&["drop", "keep"]))
+                    } else {
+                        format!("child {} {}", r.pick(&mods), r.pick(&["drop", "keep"]))
+                    }
+                }
                 11 if hook != "end" => {
                     if r.chance(1, 2) {
                         "shutdown".to_string()
@@ -1027,7 +1109,8 @@ pub fn gen(seed: u64, count: usize, thorough: bool) -> String {
                 let n = r.range(2, 5);
                 for _ in 0..n {
                     bcount += 1;
-                    writeln!(out, "do {m} start 0 send {} {} 0 b{bcount}", c.0, r.range(1, nid)).unwrap();
+                    let b = if r.chance(1, 4) { "z".to_string() } else { format!("b{bcount}") };
+                    writeln!(out, "do {m} start 0 send {} {} 0 {b}", c.0, r.range(1, nid)).unwrap();
                 }
             }
         }
@@ -1053,7 +1136,7 @@ pub fn gen(seed: u64, count: usize, thorough: bool) -> String {
         for _ in 0..ninit {
             let m = r.pick(&mods);
             bcount += 1;
-            let b = if r.chance(1, 5) { "-".to_string() } else { format!("b{bcount}") };
+            let b = if r.chance(1, 5) { "-".to_string() } else if r.chance(1, 5) { "z".to_string() } else { format!("b{bcount}") };
             writeln!(out, "init {m} {} {} {b}", r.range(1, nid), *r.pick(&[0u64, 0, 1, 5, 1000, 100_000_000, 3_000_000_000])).unwrap();
         }
         writeln!(out, "end").unwrap();
